@@ -23,20 +23,30 @@ LEVEL_TEXT = ("Theorems about the sensor functions/kernels regenerated from sens
               "position/body/orientation tables for BODY/XBODY/GEOM/SITE/CAMERA; FRAMEQUAT = conj(q_ref) q_obj; FRAMELINACC/ANGACC, VELOCIMETER, GYRO, ACCELEROMETER, FORCE, TORQUE, MAGNETOMETER, "
               "BALLQUAT and the copying sensors equal their MuJoCo formulas for all inputs; over R: accelerometer = R_site^T framelinacc(site), unit-norm quaternion outputs, identity for a frame "
               "relative to itself; limit sensors: _limit_pos/_vel/_frc write iff the row is a limit row with efc_id == sensor_objid AND row kind = sensor kind, and then the apply_cutoff value; "
-              "energy kernels: gravity term -m g.xipos (exact write list, linear in g), joint and tendon spring terms (dead band, >= 0, zero at the reference); host graph of forward(): the complete "
+              "cutoff post-pass over atomically accumulated sensors (_tendon_actuator_force_cutoff): one store of apply_cutoff of the accumulated cell, a TOUCH sensor ends at min(sum, cutoff); "
+              "energy kernels: gravity term -m g.xipos (exact write list, linear in g), joint and tendon spring terms (poly_potential of the SIGNED displacement outside the dead band, >= 0 for linear springs, zero at the reference); host graph of forward(): _sensor_touch and _tendon_actuator_force are each followed immediately by the cutoff post-pass over the same address list; the complete "
               "list of energy-related events with their guards, and in ALL 16 (ENERGY flag, SENSOR disable, e_potential, e_kinetic) configurations the energy kernels run exactly when MuJoCo "
               "evaluates the energy, exactly once, in a fixed order. Numerical agreement with MuJoCo C (mj_forward sensordata and energy) is sampled on random models with random sensor sets, "
               "cutoffs, reference frames, several worlds with different states; the Spec formulas are also evaluated in float64 on mujoco_warp's own Data arrays and compared with its sensordata "
-              "(ties the untranslated dispatch kernels and _write_vector to the Spec).")
+              "(ties the untranslated dispatch kernels and _write_vector to the Spec). Energy: a NumPy transcription of mj_energyPos/mj_energyVel (gravity, joint springs of all four joint kinds, tendon springs "
+              "with dead band, linear and polynomial stiffness) is validated against C's own mj_energyPos on every case, gives the float32 tolerance from the term magnitudes, and is evaluated on "
+              "mujoco_warp's own qpos/xipos/ten_length against d.energy and the e_potential sensors; a spring-energy family forces every spring kind and every tendon regime (shorter / inside / longer "
+              "than the springlength band, both signs of the cubic coefficient) in rotation.")
 LEVEL_NOTE = ("C07_partial: _write_vector, _get_mat, _frame_pos/_frame_axis/_frame_linvel/_frame_angvel, the dispatch kernels _sensor_pos/_vel/_acc, _energy_pos_zero, the tiled kinetic-energy kernel, "
               "_sensor_tactile and contact_sort are not translated (keyword call wp.identity(3, dtype=..), array views passed to a writing function, tile primitives) - covered by the oracle only. "
-              "Two defects found by this check were repaired in /repo and are now theorems + regression cases that run first: 'fix: joint-limit and tendon-limit sensors read each other's "
-              "constraint rows' (limit_pos/vel/frc_writes, limit_pos_spec) and 'fix: d.energy stayed stale with the energy flag on, an energy sensor present and the sensor stage disabled' "
-              "(energy_gating over all 16 configurations). Still present (Props/C07Witness.lean, reproduced by the oracle as findings): touch sensors ignore their cutoff; with the ENERGY flag off "
+              "Three defects found by this check were repaired in /repo and are now theorems + regression cases that run first: 'fix: joint-limit and tendon-limit sensors read each other's "
+              "constraint rows' (limit_pos/vel/frc_writes, limit_pos_spec), 'fix: d.energy stayed stale with the energy flag on, an energy sensor present and the sensor stage disabled' "
+              "(energy_gating over all 16 configurations) and 'fix: touch sensors ignored sensor_cutoff' (cutoff_postpass_spec, touch_cutoff_spec, touch_then_cutoff_pass, "
+              "accumulating_sensor_launches_have_cutoff_pass; not proved: that the atomic adds of _sensor_touch sum to MuJoCo's touch force and that no later kernel overwrites a touch cell - sampled). "
+              "MuJoCo's potential energy of dim-1 flex edge springs is not generated (mujoco_warp never reads flex_edgestiffness: recorded under C02, finding C02-flex-edge); elastic dim-2 flexes are (no potential term in C either). "
+              "Still present (Props/C07Witness.lean, reproduced by the oracle as findings): with the ENERGY flag off "
               "d.energy is zeroed where MuJoCo keeps the value an energy sensor computed; accelerometer/framelinacc on a body welded to the world report -gravity where MuJoCo 3.13 reports 0; BALLQUAT "
               "of a zero quaternion. Trusted: Lean kernel + Mathlib, translator, host-graph extractor.")
 ASSUMPTIONS = ["float32 tolerances: position/velocity-stage sensors 2e-4 * (1 + magnitude), acceleration-stage sensors 5e-3 * (1 + |cacc| + |cfrc_int| magnitude); solver run to 1e-10 / 100 iterations; cross-tree family (unconstrained models): 2e-3 * max|sensor value| + 2e-5 * (1 + |cvel| + |xpos|) for position/velocity-stage "
                "sensors and + 1e-4 * (1 + |cacc|) for acceleration-stage ones, so a 5% error of a frame sensor is a finding",
+               "energy: d.energy and e_potential/e_kinetic sensors vs mj_forward at 3e-5 * (1 + sum of term magnitudes), where a term's magnitude is m |g| (0.1 + |xipos|) for gravity, |E| + |spring force| * (0.1 + |displacement| "
+               "or |length| + |springlength|) for springs, sum |v_i| |M_ij| |v_j| for the kinetic energy (never looser than the generic tolerances); transcription on mujoco_warp's own arrays at 1e-5 of the same magnitude; "
+               "both only when the transcription reproduces C's mj_energyPos/mj_energyVel to 1e-9 on the case (counted)",
                "discontinuous sensors (insidesite, rangefinder, touch, distance/normal/fromto) are skipped and counted as ties when MuJoCo's own value changes under a 1e-5 perturbation of qpos",
                "tactile, contact, plugin and user sensors are not generated (counted)"]
 
@@ -117,7 +127,12 @@ def _gen_model(rng, nbody, contact_family=False):
       attr = ""
       if rng.random() < 0.7:
         lo = rng.uniform(-0.3, 0.1)
-        attr += f' stiffness="{_f(rng.uniform(0.5, 15))}" springlength="{_f([lo, lo + (rng.uniform(0, 0.4) if rng.random() < 0.7 else 0.0)])}"'
+        stiff = _f(rng.uniform(0.5, 15))
+        if rng.random() < 0.5:
+          # polynomial stiffness: the cubic term of the potential is ODD in the displacement, so the sign of (length - springlength bound) matters
+          stiff = _f([rng.uniform(0.5, 15), rng.choice([-1, 1]) * rng.uniform(1, 6), rng.uniform(0, 5)])
+          info["poly_tendon"] = True
+        attr += f' stiffness="{stiff}" springlength="{_f([lo, lo + (rng.uniform(0, 0.4) if rng.random() < 0.7 else 0.0)])}"'
       if rng.random() < 0.4:
         lo = rng.uniform(-0.5, 0.0)
         attr += f' limited="true" range="{_f([lo, lo + rng.uniform(0.05, 0.5)])}"'
@@ -127,7 +142,8 @@ def _gen_model(rng, nbody, contact_family=False):
   if len(info["sites"]) >= 2 and rng.random() < 0.5:
     a, b = rng.choice(info["sites"], size=2, replace=False)
     tn = f"t{len(info['tendons'])}"
-    tendon.append(f'    <spatial name="{tn}" stiffness="{_f(rng.uniform(0.5, 10))}" springlength="{_f(rng.uniform(0.1, 0.8))}"><site site="{a}"/><site site="{b}"/></spatial>')
+    stiff = _f(rng.uniform(0.5, 10)) if rng.random() < 0.5 else _f([rng.uniform(0.5, 10), rng.choice([-1, 1]) * rng.uniform(1, 6), rng.uniform(0, 5)])
+    tendon.append(f'    <spatial name="{tn}" stiffness="{stiff}" springlength="{_f(rng.uniform(0.1, 0.8))}"><site site="{a}"/><site site="{b}"/></spatial>')
     info["tendons"].append(tn)
   for j in scal:
     if rng.random() < 0.5:
@@ -408,6 +424,92 @@ def _spec_value(A, mjm, i):
   return None, mag
 
 
+# --------------------------------------------------------------------------------------------- energy: NumPy transcription of mj_energyPos / mj_energyVel
+
+def _pp(k, p, x):
+  """potential of a polynomial spring with force -(k x + p0 x^2 + p1 x^3): the cubic term keeps the SIGN of x"""
+  return 0.5 * k * x * x + p[0] / 3.0 * x ** 3 + p[1] / 4.0 * x ** 4
+
+
+def _pf(k, p, x):
+  return abs(k * x) + abs(p[0]) * x * x + abs(p[1] * x ** 3)
+
+
+def _quat_angle(qa, qb):
+  """|mju_subQuat(normalize(qa), qb)|"""
+  n = np.linalg.norm(qa)
+  qa = qa / n if n > 0 else np.array([1.0, 0, 0, 0])
+  q = _mulq(np.array([qb[0], -qb[1], -qb[2], -qb[3]]), qa)
+  ang = 2 * np.arctan2(np.linalg.norm(q[1:]), q[0])
+  if ang > np.pi:
+    ang -= 2 * np.pi
+  return abs(ang)
+
+
+def _tendon_disp(mjm, t, L):
+  """signed displacement of tendon t of length L from its [lower, upper] spring dead band; regime -1 shorter / 0 inside / +1 longer"""
+  lo, hi = mjm.tendon_lengthspring[t]
+  if L > hi:
+    return L - hi, 1
+  if L < lo:
+    return L - lo, -1
+  return 0.0, 0
+
+
+def _energy_terms(mujoco, mjm, qpos, xipos, ten_length):
+  """mj_energyPos term by term in float64: list of (kind, value, magnitude bound used for the float32 tolerance)"""
+  T = []
+  if not (mjm.opt.disableflags & mujoco.mjtDisableBit.mjDSBL_GRAVITY):
+    g = np.asarray(mjm.opt.gravity, dtype=np.float64)
+    for i in range(1, mjm.nbody):
+      T.append(("gravity", -mjm.body_mass[i] * float(g @ xipos[i]), mjm.body_mass[i] * np.linalg.norm(g) * (0.1 + np.linalg.norm(xipos[i]))))
+  if not (mjm.opt.disableflags & mujoco.mjtDisableBit.mjDSBL_SPRING):
+    for j in range(mjm.njnt):
+      k, p, a, t = float(mjm.jnt_stiffness[j]), mjm.jnt_stiffnesspoly[j], int(mjm.jnt_qposadr[j]), int(mjm.jnt_type[j])
+      if k == 0 and not np.any(p):
+        continue
+      ref = mjm.qpos_spring
+      if t == 0:
+        xs = [np.linalg.norm(qpos[a:a + 3] - ref[a:a + 3]), _quat_angle(qpos[a + 3:a + 7], ref[a + 3:a + 7])]
+        kind = "joint-free"
+      elif t == 1:
+        xs = [_quat_angle(qpos[a:a + 4], ref[a:a + 4])]
+        kind = "joint-ball"
+      else:
+        xs = [qpos[a] - ref[a]]
+        kind = "joint-scalar"
+      kind += "-poly" if np.any(p) else "-linear"
+      T.append((kind, sum(_pp(k, p, x) for x in xs), sum(abs(_pp(k, p, abs(x))) + _pf(k, p, abs(x)) * (0.1 + abs(x)) for x in xs)))
+    for t in range(mjm.ntendon):
+      k, p = float(mjm.tendon_stiffness[t]), mjm.tendon_stiffnesspoly[t]
+      if k == 0 and not np.any(p):
+        continue
+      x, reg = _tendon_disp(mjm, t, float(ten_length[t]))
+      kind = "tendon-" + ("poly" if np.any(p) else "linear") + "-" + {-1: "shorter", 0: "inside", 1: "longer"}[reg]
+      T.append((kind, _pp(k, p, x), abs(_pp(k, p, abs(x))) + _pf(k, p, abs(x)) * (0.1 + abs(ten_length[t]) + np.abs(mjm.tendon_lengthspring[t]).max())))
+  return T
+
+
+def _c_energy(mujoco, mjm, mjd):
+  """(potential, kinetic) of MuJoCo C's own mj_energyPos / mj_energyVel on a copy of mjd - what C evaluates whenever the flag or an energy sensor asks for it"""
+  import copy
+  c = copy.copy(mjd)
+  mujoco.mj_energyPos(mjm, c)
+  mujoco.mj_energyVel(mjm, c)
+  return np.array(c.energy, dtype=np.float64)
+
+
+def _kinetic(mujoco, mjm, mjd):
+  """0.5 v^T M v from MuJoCo's inertia matrix and the magnitude bound sum |v_i| |M_ij| |v_j|"""
+  M = np.zeros((mjm.nv, mjm.nv))
+  try:
+    mujoco.mj_fullM(mjm, mjd, M)
+  except TypeError:
+    mujoco.mj_fullM(mjm, M, mjd.qM)
+  v = mjd.qvel
+  return 0.5 * float(v @ M @ v), float(np.abs(v) @ np.abs(M) @ np.abs(v))
+
+
 # --------------------------------------------------------------------------------------------- oracle
 
 def _ref_forward(mujoco, mjm, qpos, qvel, ctrl, act, time):
@@ -476,6 +578,29 @@ def _compare(acc, ctx, mujoco, mjw, rng, xml, mjm, m, nworld, flags_desc, check_
       continue
     A = _Arr(mjm, d, w) if check_spec and mjm.nsensor and not sensor_off else None
     accmag = 1 + np.abs(ref.cacc).max() + np.abs(ref.cfrc_int).max() + np.abs(ref.cvel).max() ** 2
+    # energy reference, term by term: the NumPy transcription is first validated against C's own mj_energyPos / mj_energyVel on C's arrays (independent of the ENERGY flag), then
+    # (a) gives the float32 tolerance from the magnitudes of the terms, (b) is evaluated on mujoco_warp's OWN arrays (isolates the energy stage from kinematics / tendon lengths)
+    eterms, etolP, etolK = None, None, None
+    try:
+      ce = _c_energy(mujoco, mjm, ref)
+      eterms = _energy_terms(mujoco, mjm, ref.qpos, ref.xipos, ref.ten_length)
+      pmag = 1 + sum(mg for _, _, mg in eterms)
+      kin, kmag = _kinetic(mujoco, mjm, ref)
+      if abs(sum(v for _, v, _ in eterms) - ce[0]) <= 1e-9 * pmag and abs(kin - ce[1]) <= 1e-9 * (1 + kmag):
+        acc.hit("energy-transcription-validated-vs-C")
+        etolP, etolK = 3e-5 * pmag, 3e-5 * (1 + kmag)
+        for kd in {kd for kd, v, _ in eterms if v != 0 or kd.startswith("tendon")}:
+          acc.hit("energy-term:" + kd)
+          acc.distinct.add("energy-term:" + kd)
+        for t in range(mjm.ntendon):
+          if mjm.tendon_stiffnesspoly[t][0] != 0 and ref.ten_length[t] < mjm.tendon_lengthspring[t][0]:
+            acc.hit("energy-term:tendon-cubic-shorter")
+      else:
+        acc.hit("energy-transcription-NOT-validated")    # a MuJoCo energy term the transcription does not know (flex edges, ...): fall back to the coarse tolerance
+        eterms = None
+    except Exception as e:   # pragma: no cover
+      acc.hit("energy-transcription-error:" + type(e).__name__)
+      eterms = None
     for i in range(mjm.nsensor):
       t, adr, dim, stage = int(mjm.sensor_type[i]), int(mjm.sensor_adr[i]), int(mjm.sensor_dim[i]), int(mjm.sensor_needstage[i])
       name = n(t).name[7:].lower()
@@ -490,6 +615,8 @@ def _compare(acc, ctx, mujoco, mjw, rng, xml, mjm, m, nworld, flags_desc, check_
         acc.hit("tight-compare")
       if t == n.mjSENS_CAMPROJECTION:
         tol = 2e-3 * (1 + np.abs(r).max())     # perspective division amplifies float32 error near the image plane
+      if eterms is not None and t in (int(n.mjSENS_E_POTENTIAL), int(n.mjSENS_E_KINETIC)):
+        tol = min(tol, etolP if t == int(n.mjSENS_E_POTENTIAL) else etolK)      # float32 tolerance from the magnitudes of the energy terms
       key = f"{name}|cut={'+' if cut > 0 else '0'}|ref={int(mjm.sensor_reftype[i]) if mjm.sensor_refid[i] >= 0 else '-'}|obj={int(mjm.sensor_objtype[i])}"
       acc.hit("sensor:" + name)
       acc.distinct.add(key)
@@ -500,8 +627,6 @@ def _compare(acc, ctx, mujoco, mjw, rng, xml, mjm, m, nworld, flags_desc, check_
           acc.hit("tie-skipped:" + name)
           continue
         trig = "vs-mujoco"
-        if t == n.mjSENS_TOUCH and cut > 0 and (r >= cut * (1 - 1e-9)).all() and (g > cut).all():
-          trig = "touch-cutoff"
         # observed: C reports exactly 0 for a linear-acceleration sensor while mujoco_warp reports a vector of the size of gravity (object on a body welded to the world, C07Witness W6)
         if t in (int(n.mjSENS_ACCELEROMETER), int(n.mjSENS_FRAMELINACC)) and np.all(r == 0) and abs(np.linalg.norm(g) - np.linalg.norm(mjm.opt.gravity)) <= tol \
             and not (mjm.opt.disableflags & mujoco.mjtDisableBit.mjDSBL_GRAVITY):
@@ -522,15 +647,36 @@ def _compare(acc, ctx, mujoco, mjw, rng, xml, mjm, m, nworld, flags_desc, check_
     # energy
     escale = 1 + np.abs(ref.energy).max() + float(np.sum(mjm.body_mass) * np.linalg.norm(mjm.opt.gravity) * (1 + np.abs(ref.xipos).max()))
     acc.hit("energy-flag-on" if energy_on else "energy-flag-off")
-    if not np.allclose(en[w], ref.energy, rtol=0, atol=3e-4 * escale):
-      es = [int(mjm.sensor_adr[i]) for i in range(mjm.nsensor) if int(mjm.sensor_type[i]) in (int(n.mjSENS_E_POTENTIAL), int(n.mjSENS_E_KINETIC))]
+    etol = np.array([3e-4 * escale] * 2) if eterms is None else np.minimum(3e-4 * escale, np.array([etolP, etolK]))
+    es = [int(mjm.sensor_adr[i]) for i in range(mjm.nsensor) if int(mjm.sensor_type[i]) in (int(n.mjSENS_E_POTENTIAL), int(n.mjSENS_E_KINETIC))]
+    if eterms is not None and (energy_on or (es and not sensor_off)):
+      # the transcription on mujoco_warp's own qpos / xipos / ten_length against the potential energy mujoco_warp reports (d.energy with the flag on, else an e_potential sensor
+      # whose cutoff is not active)
+      own = _energy_terms(mujoco, mjm, d.qpos.numpy()[w].astype(np.float64), d.xipos.numpy()[w].astype(np.float64),
+                          d.ten_length.numpy()[w].astype(np.float64) if mjm.ntendon else np.zeros(0))
+      want = sum(v for _, v, _ in own)
+      got = [("d.energy[0]", en[w][0])] if energy_on else []
+      for i in range(mjm.nsensor):
+        if int(mjm.sensor_type[i]) == int(n.mjSENS_E_POTENTIAL) and not sensor_off and not (mjm.sensor_cutoff[i] > 0 and abs(want) >= 0.9 * mjm.sensor_cutoff[i]):
+          got.append((f"e_potential sensor {i}", sd[w, int(mjm.sensor_adr[i])]))
+      for nm, gv in got:
+        acc.hit("energy-spec-evaluated")
+        if abs(gv - want) > 1e-5 * (1 + sum(mg for _, _, mg in own)):
+          acc.find(f"potential energy: mujoco_warp's {nm} = {gv:.7g} differs from the transcription of mj_energyPos evaluated on mujoco_warp's OWN qpos/xipos/ten_length = {want:.7g} "
+                   f"(ENERGY flag {'on' if energy_on else 'off'}, world {w}/{nworld}, {flags_desc}); terms: " + ", ".join(f"{kd} {v:.5g}" for kd, v, _ in own if not kd.startswith("gravity"))
+                   + f", gravity {sum(v for kd, v, _ in own if kd.startswith('gravity')):.5g}", "sensor.energy_pos (model vs code)", "energy-spec-vs-code", xml=xml,
+                   qpos=states[w][0].tolist(), qvel=states[w][1].tolist())
+          break
+    if not (np.abs(en[w] - ref.energy) <= etol).all():
       has_es = bool(es)
       trig = "energy-vs-mujoco"
       # observed: mujoco_warp evaluated the energy for its sensors (sensordata agree with C) but d.energy itself is exactly zero, where C kept the sensor-computed value (C07Witness W5)
       if not energy_on and has_es and np.abs(en[w]).max() == 0 and np.allclose(sd[w, es], ref.sensordata[es], rtol=0, atol=3e-4 * escale) and np.abs(ref.sensordata[es]).max() > 0:
         trig = "energy-flag-off-zeroed"
-      acc.find(f"energy (ENERGY flag {'on' if energy_on else 'off'}, sensors {'disabled' if sensor_off else 'enabled'}, energy sensor {'present' if has_es else 'absent'}, world {w}/{nworld}): "
-               f"mjw {np.round(en[w], 5).tolist()} vs C {np.round(ref.energy, 5).tolist()}", "forward._energy_pos/_energy_vel, sensor.energy_pos", trig, xml=xml,
+      acc.find(f"energy (ENERGY flag {'on' if energy_on else 'off'}, sensors {'disabled' if sensor_off else 'enabled'}, energy sensor {'present' if has_es else 'absent'}, world {w}/{nworld}, {flags_desc}): "
+               f"mjw {np.round(en[w], 5).tolist()} vs C {np.round(ref.energy, 5).tolist()} (tol {np.round(etol, 6).tolist()})"
+               + ("; C terms: " + ", ".join(f"{kd} {v:.5g}" for kd, v, _ in eterms if not kd.startswith("gravity")) if eterms else ""),
+               "forward._energy_pos/_energy_vel, sensor.energy_pos", trig, xml=xml,
                qpos=states[w][0].tolist(), qvel=states[w][1].tolist())
   return d
 
@@ -614,6 +760,130 @@ def _cross_tree_case(acc, ctx, mujoco, mjw, rng):
   _compare(acc, ctx, mujoco, mjw, rng, xml, mjm, m, int(rng.integers(1, 3)), f"cross-tree family, {ntree} trees", check_spec=True, tight=True, qvel_scale=float(rng.uniform(1.0, 3.0)))
 
 
+SPRING_FLEX = ('<flexcomp name="fx" type="grid" count="3 3 1" spacing=".15 .15 .15" dim="2" radius=".02" mass=".3" pos="-1.5 0 1.5">'
+               '<elasticity young="{young}" poisson="0.2" thickness=".01" elastic2d="both"/><contact selfcollide="none" internal="false"/></flexcomp>')
+
+
+def _spring_case(acc, ctx, mujoco, mjw, rng, k):
+  """spring-energy family: a fixed topology (slide-hinge-ball chain, a free body, a hinge-slide chain; 13 dofs) where EVERY spring kind is present and rotates deterministically with
+  the case index k: joint springs none / linear / polynomial with cubic coefficient > 0 / < 0 on slide, hinge, ball and free joints (with springref), two fixed tendons and a spatial
+  tendon with linear or polynomial stiffness (both signs of the cubic coefficient) and springlength default / single value / dead band, joint and tendon armature (kinetic term),
+  every 4th case an elastic dim-2 flex (MuJoCo counts no potential energy for it; its dofs enter the kinetic energy).  3 worlds; world w puts tendon i into regime (k + w + i) % 3 =
+  shorter than the lower springlength / inside the dead band / longer than the upper one - fixed tendons exactly (their length is linear in qpos), the spatial tendon by rejection
+  sampling.  ENERGY flag on (k % 3 != 2) / off, gravity disabled for odd k (then the potential energy is the spring terms alone), springs disabled for k % 5 == 4.
+  d.energy and e_potential / e_kinetic sensors (with and without cutoff) are compared with mj_forward at a tolerance derived from the term magnitudes."""
+  def stiff(kind, lin=(0.5, 20.0), sc=1.0):
+    if kind == 0:
+      return ""
+    kk = rng.uniform(*lin)
+    if kind == 1:
+      return f' stiffness="{_f(kk)}"'
+    return f' stiffness="{_f([kk, (1 if kind == 2 else -1) * rng.uniform(2, 6) * sc, rng.uniform(0, 5) * sc])}"'
+
+  def axis():
+    a = rng.normal(size=3)
+    return _f(a / np.linalg.norm(a))
+
+  def geom(nm):
+    return f'<geom name="g{nm}" type="{rng.choice(["sphere", "capsule", "box"])}" size="{_f(rng.uniform(0.04, 0.1, size=3))}" mass="{_f(rng.uniform(0.1, 1.0))}"/>'
+  jk = [(k + i) % 4 for i in range(6)]          # spring kind of slide j0, hinge j1, ball jb, free jf, hinge j2, slide j3
+  arm = f' armature="{_f(rng.uniform(0.05, 0.5))}"' if k % 2 == 0 else ""
+  ref = lambda: f' springref="{_f(rng.uniform(-0.4, 0.4))}"'
+  body = (f'    <body name="A" pos="0 0 1"><joint name="j0" type="slide" axis="{axis()}"{stiff(jk[0])}{ref()}/>{geom("A")}\n'
+          f'      <body name="B" pos=".3 0 0"><joint name="j1" type="hinge" axis="{axis()}"{stiff(jk[1])}{ref()}{arm}/>{geom("B")}<site name="sB" pos="{_f(rng.uniform(-0.1, 0.1, size=3))}"/>\n'
+          f'        <body name="C" pos=".2 .1 0"><joint name="jb" type="ball"{stiff(jk[2], (0.3, 2.0), 0.1)}/>{geom("C")}<site name="sC" pos=".1 0 0"/></body></body></body>\n'
+          f'    <body name="D" pos="1 0 1"><joint name="jf" type="free"{stiff(jk[3], (0.3, 2.0), 0.1)}/>{geom("D")}<site name="sD"/></body>\n'
+          f'    <body name="E" pos="0 1.2 1"><joint name="j2" type="hinge" axis="{axis()}"{stiff(jk[4])}{ref()}/>{geom("E")}\n'
+          f'      <body name="F" pos="0 .3 0"><joint name="j3" type="slide" axis="{axis()}"{stiff(jk[5])}{ref()}/>{geom("F")}<site name="sF" pos="{_f(rng.uniform(-0.1, 0.1, size=3))}"/></body></body>\n')
+  flex = k % 4 == 3
+  if flex:
+    body += "    " + SPRING_FLEX.format(young=_f(rng.uniform(5e2, 5e3))) + "\n"
+  sgn = 1 if k % 2 == 0 else -1
+  coef = lambda: rng.choice([-1, 1]) * rng.uniform(0.5, 1.5)
+  c = [coef() for _ in range(4)]
+
+  def tstiff(poly, s):
+    kk = rng.uniform(0.5, 15)
+    return _f([kk, s * rng.uniform(2, 6), rng.uniform(0, 5)]) if poly else _f(kk)
+
+  def slen(mode, base):
+    if mode == 0:
+      return ""                                  # default: the length at qpos0 (lower == upper)
+    lo = base + rng.uniform(-0.2, 0.1)
+    return f' springlength="{_f(lo)}"' if mode == 1 else f' springlength="{_f([lo, lo + rng.uniform(0.1, 0.4)])}"'
+  tarm = f' armature="{_f(rng.uniform(0.05, 0.4))}"' if k % 2 == 0 else ""
+
+  def tendons(l2):
+    return ("  <tendon>\n"
+            f'    <fixed name="t0" stiffness="{ts[0]}"{sl[0]}><joint joint="j0" coef="{_f(c[0])}"/><joint joint="j1" coef="{_f(c[1])}"/></fixed>\n'
+            f'    <fixed name="t1" stiffness="{ts[1]}"{sl[1]}{tarm}><joint joint="j2" coef="{_f(c[2])}"/><joint joint="j3" coef="{_f(c[3])}"/></fixed>\n'
+            f'    <spatial name="t2" stiffness="{ts[2]}"{l2}><site site="sB"/><site site="sF"/></spatial>\n  </tendon>\n')
+  # t0 always polynomial (cubic sign alternates with k), t1 polynomial for k % 2 == 1 (opposite sign), t2 polynomial for k % 3 != 0
+  ts = [tstiff(True, sgn), tstiff(k % 2 == 1, -sgn), tstiff(k % 3 != 0, -sgn if k % 4 < 2 else sgn)]
+  sl = [slen(k % 3, 0.0), slen((k + 1) % 3, 0.0)]
+  energy_on, grav_off, spring_off = k % 3 != 2, k % 2 == 1, k % 5 == 4
+  flags = f'contact="disable" energy="{"enable" if energy_on else "disable"}"' + (' gravity="disable"' if grav_off else "") + (' spring="disable"' if spring_off else "")
+  g = rng.normal(size=3) * 2 + np.array([0, 0, -9.81])
+  sens = ('  <sensor>\n    <e_potential name="ep"/>\n    <e_kinetic name="ek"/>\n'
+          f'    <e_potential name="epc" cutoff="{_f(rng.choice([0.5, 3.0, 30.0]))}"/>\n    <e_kinetic name="ekc" cutoff="{_f(rng.choice([0.5, 5.0]))}"/>\n'
+          '    <tendonpos tendon="t0"/>\n    <tendonpos tendon="t1"/>\n    <tendonpos tendon="t2"/>\n    <jointpos joint="j0"/>\n    <ballquat joint="jb"/>\n  </sensor>\n')
+
+  def xml_of(l2):
+    return (f'<mujoco>\n  <compiler angle="radian"/>\n  <option gravity="{_f(g)}" timestep="0.004"><flag {flags}/></option>\n  <worldbody>\n' + body + "  </worldbody>\n"
+            + tendons(l2) + sens + "</mujoco>\n")
+  # the spatial tendon's springlength is placed relative to its length at qpos0 (first compilation), so that all three regimes are reachable
+  L0 = float(mujoco.MjModel.from_xml_string(xml_of("")).tendon_length0[2])
+  m2 = (k + 2) % 3
+  xml = xml_of("" if m2 == 0 else (f' springlength="{_f(L0 * rng.uniform(0.85, 1.1))}"' if m2 == 1 else f' springlength="{_f([L0 * 0.85, L0 * 1.05])}"'))
+  mjm = mujoco.MjModel.from_xml_string(xml)
+  try:
+    m = mjw.put_model(mjm)
+  except NotImplementedError:
+    acc.hit("unsupported:spring-family" + ("-flex" if flex else ""))
+    return
+  acc.hit("spring-family")
+  for nm, on in (("flex", flex), ("energy-on", energy_on), ("gravity-off", grav_off), ("spring-off", spring_off), ("armature", k % 2 == 0)):
+    if on:
+      acc.hit("spring-family:" + nm)
+  from harness.gen import models
+  orig = models.random_state
+  world = [0]
+  jadr = {mujoco.mj_id2name(mjm, mujoco.mjtObj.mjOBJ_JOINT, j): int(mjm.jnt_qposadr[j]) for j in range(mjm.njnt) if mujoco.mj_id2name(mjm, mujoco.mjtObj.mjOBJ_JOINT, j)}
+
+  def forced(rng_, mjm_, mjd_, **kw):
+    w = world[0]
+    world[0] += 1
+    want = [(k + w + i) % 3 - 1 for i in range(3)]       # -1 shorter, 0 inside, +1 longer
+    best = None
+    for attempt in range(40):
+      models_state = orig(rng_, mjm_, mjd_, qpos_scale=0.4, qvel_scale=1.0, unnormalized=bool(rng_.random() < 0.3))
+      qp = mjd_.qpos.copy()
+      for j in range(mjm_.njnt):
+        if not mujoco.mj_id2name(mjm_, mujoco.mjtObj.mjOBJ_JOINT, j):       # flex vertex dofs: small deformation
+          qp[mjm_.jnt_qposadr[j]] = mjm_.qpos0[mjm_.jnt_qposadr[j]] + rng_.normal() * 0.02
+      for nm in ("j0", "j1", "j2", "j3"):
+        qp[jadr[nm]] = mjm_.qpos_spring[jadr[nm]] + rng_.normal() * 0.5
+      for ti, (ja, jb_, ca, cb) in enumerate((("j0", "j1", c[0], c[1]), ("j2", "j3", c[2], c[3]))):
+        lo, hi = mjm_.tendon_lengthspring[ti]
+        target = {-1: lo - rng_.uniform(0.2, 0.7), 0: rng_.uniform(lo, hi) if hi > lo else lo, 1: hi + rng_.uniform(0.2, 0.7)}[want[ti]]
+        qp[jadr[ja]] = (target - float(_f(cb)) * qp[jadr[jb_]]) / float(_f(ca))      # fixed tendon length = sum coef * qpos (coefficients as written into the MJCF)
+      mjd_.qpos[:] = qp
+      mujoco.mj_fwdPosition(mjm_, mjd_)
+      reg = _tendon_disp(mjm_, 2, float(mjd_.ten_length[2]))[1]
+      if best is None:
+        best = (qp.copy(), mjd_.qvel.copy())
+      if reg == want[2] or (want[2] == 0 and mjm_.tendon_lengthspring[2][0] == mjm_.tendon_lengthspring[2][1]):
+        best = (qp.copy(), mjd_.qvel.copy())
+        acc.hit("spring-family:spatial-regime-forced")
+        break
+    mjd_.qpos[:], mjd_.qvel[:] = best
+  models.random_state = forced
+  try:
+    _compare(acc, ctx, mujoco, mjw, rng, xml, mjm, m, 3, f"spring family k={k}: {flags}", check_spec=False, naconmax=32)
+  finally:
+    models.random_state = orig
+
+
 def _contact_case(acc, ctx, mujoco, mjw, rng):
   q = rng.normal(size=4) * 0.3 + np.array([1, 0, 0, 0]) if rng.random() < 0.5 else np.array([0.0, 1.0, 0.0, 0.0]) + rng.normal(size=4) * 0.2
   q /= np.linalg.norm(q)
@@ -643,7 +913,7 @@ def _contact_case(acc, ctx, mujoco, mjw, rng):
     models.random_state = orig
 
 
-def _run(ctx, ncases, ncontact, rec, ncross=2):
+def _run(ctx, ncases, ncontact, rec, ncross=2, nspring=3):
   global S
   import mujoco
   import mujoco_warp as mjw
@@ -655,6 +925,8 @@ def _run(ctx, ncases, ncontact, rec, ncross=2):
 
   def scenario():
     _fixed_cases(acc, ctx, mujoco, mjw, rng)
+    for c in range(nspring):
+      _spring_case(acc, ctx, mujoco, mjw, rng, ctx.seed * nspring + c)
     for c in range(ncases):
       energy = rng.random() < 0.6
       sens_off = rng.random() < 0.12
@@ -702,9 +974,15 @@ W_STATIC = """<mujoco><worldbody><body name="st" pos="0 0 1"><geom size=".1"/><s
   <sensor><accelerometer site="s0"/><framelinacc objtype="xbody" objname="st"/></sensor></mujoco>"""
 
 
+def _touch_state(mjm):
+  qpos = mjm.qpos0.copy()
+  qpos[7] = 0.3
+  return qpos, np.full(mjm.nv, 0.1), np.zeros(mjm.nu), np.zeros(mjm.na), 0.0
+
+
 def _fixed_cases(acc, ctx, mujoco, mjw, rng):
-  """fixed inputs, run before the random ones: (a) regression cases of the two defects this check found and /repo repaired (must produce no finding), (b) triggers of the
-  still-present differences W1, W5, W3 of Props/C07Witness.lean"""
+  """fixed inputs, run before the random ones: (a) regression cases of the three defects this check found and /repo repaired (must produce no finding; the touch case also
+  checks that its cutoff really binds), (b) triggers of the still-present differences W5, W3, W6 of Props/C07Witness.lean"""
   from harness.gen import models
   orig = models.random_state
 
@@ -722,7 +1000,7 @@ def _fixed_cases(acc, ctx, mujoco, mjw, rng):
     mjd_.qvel[:] = [1.0, 0.0]
   cases = [(W_LIMIT, st_limit, "regression: joint limit active, tendon with the same id limited but inactive", True),
            (W_TOUCH.format(sens='sensor="disable"', cut="0"), st_touch(False), "regression: ENERGY flag + energy sensors + sensors disabled", True),
-           (W_TOUCH.format(sens="", cut="2.5"), st_touch(False), "touch cutoff", False),
+           (W_TOUCH.format(sens="", cut="2.5"), st_touch(False), "regression: touch sensor with a binding cutoff (C 2.5, formerly mjw 34.3)", True),
            (W_TOUCH.format(sens="", cut="0").replace('energy="enable"', 'energy="disable"'), st_touch(False), "ENERGY off + energy sensors", False),
            (W_TOUCH.format(sens="", cut="0"), st_touch(True), "zero ball quaternion", False),
            (W_STATIC, lambda rng_, mjm_, mjd_, **kw: mjd_.qvel.__setitem__(slice(None), 1.0), "acceleration sensors on a static body", False)]
@@ -737,6 +1015,14 @@ def _fixed_cases(acc, ctx, mujoco, mjw, rng):
       models.random_state = orig
     if regression:
       acc.hit("regression-pass" if len(acc.findings) == n0 else "regression-FAIL")
+      if "touch" in desc:
+        # vacuity guard of the regression case: the cutoff must bind in C (value == cutoff) and the uncut force must exceed it
+        import copy
+        md = _ref_forward(mujoco, mjm, *_touch_state(mjm))
+        m0 = copy.copy(mjm)
+        m0.sensor_cutoff[0] = 0.0
+        raw = _ref_forward(mujoco, m0, *_touch_state(m0)).sensordata[0]
+        acc.hit("regression-touch-cutoff-binds" if md.sensordata[0] == 2.5 and raw > 5.0 else "regression-touch-cutoff-VACUOUS")
     else:
       acc.hit("witness-trigger")
 
@@ -746,16 +1032,20 @@ RULE = ("random forests of 2-5 bodies (free/ball/hinge/slide joints, all geom ty
         "from every sensor type put_model accepts (rejected types are learnt from NotImplementedError and counted), frame sensors over all five object types with and without a reference frame "
         "(sometimes the object itself), cutoff 0 or positive; ENERGY flag on/off, sometimes SENSOR / GRAVITY / SPRING disabled; 1-3 worlds with different random states (30% with "
         "unnormalised quaternions), controls, activations and times; compared per sensor and per world with mujoco.mj_forward; a cross-tree family (>= 2 models per run with 3-4 separate rotating trees - free, ball and hinge roots with a hinged child each - and every relative frame sensor type over all 25 object-type x reference-type pairs with object and reference in DIFFERENT trees, framelinacc/frameangacc over all object types, tolerance 0.2% of the sensor magnitude); Spec formulas evaluated on mujoco_warp's own arrays; plus a contact "
-        "family (sphere resting on a plane: touch with cutoff, rangefinder, distance/normal/fromto, force); five fixed cases run first (two regression cases of repaired defects, three witness triggers); distinct = (type, cutoff active?, reftype, objtype)")
+        "family (sphere resting on a plane: touch with cutoff, rangefinder, distance/normal/fromto, force); six fixed cases run first (three regression cases of repaired defects incl. a touch sensor with a binding cutoff, three witness triggers); "
+        "spring-energy family (3 models per quick run, index = 3 * seed + i so that seeds rotate through the combinations): slide-hinge-ball chain + free body + hinge-slide chain, joint springs none/linear/cubic>0/cubic<0 on every joint kind, "
+        "two fixed tendons and a spatial tendon with linear or polynomial stiffness and springlength default/single/dead band, joint and tendon armature, every 4th an elastic dim-2 flex, 3 worlds with tendon i of world w in regime (k+w+i)%3 "
+        "(shorter/inside/longer; fixed tendons exactly, spatial by rejection), ENERGY flag on/off, gravity off for odd k, springs off for k%5==4, e_potential/e_kinetic with and without cutoff; random models' tendons have polynomial stiffness with probability 1/2; "
+        "distinct = (type, cutoff active?, reftype, objtype) and energy term kinds")
 
 
 def correspondence(ctx):
   from harness.corr import func_corr
   fc = func_corr.run(FUNCS, ncases=96 if ctx.thorough else 32, seed=ctx.seed, int_ranges={"util_misc.poly_potential": (0, 1)})
-  acc, kc = _run(ctx, 60 if ctx.thorough else 8, 16 if ctx.thorough else 3, True, ncross=8 if ctx.thorough else 2)
+  acc, kc = _run(ctx, 60 if ctx.thorough else 8, 16 if ctx.thorough else 3, True, ncross=8 if ctx.thorough else 2, nspring=20 if ctx.thorough else 3)
   return result(acc, RULE, kc=kc, fc=fc)
 
 
 def search(ctx, breaks):
-  acc, _ = _run(ctx, 80, 20, False, ncross=10)
+  acc, _ = _run(ctx, 80, 20, False, ncross=10, nspring=30)
   return search_result(acc, "mujoco.mj_forward sensordata and energy, per sensor and per world")
